@@ -6,6 +6,7 @@
   history stays inside the range of that function.
 -/
 import TdfProofs.Lemmas.Layout
+import TdfProofs.Lemmas.Compact
 import TdfProofs.Properties.C03
 namespace Tdf.C09
 
@@ -95,6 +96,28 @@ theorem histories_on_new_file (now : Int) (hnow : inI32 now = true) (ops : List 
   refine ⟨?_, wfB_image _ h2, compactB_image _ h2, typesNodupB_image _ h2, reopen_same _ h2⟩
   simp only [Lay.state, Lay.image, List.append_assoc, hhdr]
   simp [C03.freshLay, Header.enc, SIG]
+
+/-- THE JUDGE IS EXACT. `compactB` — the executable predicate the harness runs on the bytes the real
+    code leaves on disk — accepts a file iff its table parses and is, declaratively: some live
+    entries (non-zero type, size ≥ 0) whose offsets are the running sums of their sizes starting at
+    the end of the table, followed only by unused slots of size 0 that point at the end of the file,
+    and the file ends exactly where the last live block ends. So a "held" verdict of the oracle means
+    C09's own sentence, and a file with a hole, a leaked tail or a stale unused slot is rejected. -/
+theorem judge_exact (file : Bytes) :
+    compactB file = true ↔
+      ∃ h es rest, decTable.run file = some ((h, es), rest)
+        ∧ CompactTable (64 + 288 * h.nEntries.toNat : Int) file.length es :=
+  compactB_iff file
+
+/-- compactness implies well-formedness (C09 ⇒ C03) on any bytes whatsoever, not only on images -/
+theorem compact_implies_wellformed (file : Bytes) (h : compactB file = true) : wfB file = true :=
+  compactB_wfB file h
+
+/-- a leaked tail is rejected: bytes left after the last live block of an otherwise compact file make
+    the judge refuse it (the parse ignores what follows the table, the length equation does not) -/
+theorem leaked_tail_rejected (l : Lay) (ok : l.Ok) (junk : Bytes) (hj : junk ≠ []) :
+    compactB (l.image ++ junk) = false :=
+  compactB_leak l ok junk hj
 
 example : (C03.freshLay 1700000000).eod = 4096 := by decide
 
